@@ -355,8 +355,9 @@ func (e *Env) engineTags(st *rm.State, rq gen.Request) string {
 // lost membership sits under an exclusion's subtrahend.
 func (e *Env) grantTags(st *rm.State, rq gen.Request) string {
 	for _, t := range st.Tuples {
-		if e.Sc.Model.IsTupleset(rm.ObjType(t.Obj), t.Rel) && (rm.IsUserset(t.User) || rm.IsWildcard(t.User)) {
-			return " userset_or_wildcard_tuple_left_on_tupleset_relation"
+		if !e.Sc.Model.ValidForRead(t) {
+			// only the weighted-graph path is known to honour such tuples (F25); the tag is inert for v1
+			return " state_has_tuple_invalid_for_model"
 		}
 	}
 	if !ReachesKind(e.Sc.Model, rm.ObjType(rq.Obj), rq.Rel, rm.Difference) {
